@@ -52,6 +52,10 @@ CLAIMED = {
    text="Lean theorems over a model of sendToKDC/dialSend*: if some endpoint on a permitted transport answers correctly and every other endpoint only refuses, closes early or is silent, the caller gets the answer of an answering endpoint, for every order of both (independently shuffled) KDC walks and every relation of request size to udp_preference_limit; no delivering endpoint gives a communication error; a KRB-ERROR from the first delivering endpoint is returned as that error, response-too-big over UDP falls back to TCP; every endpoint is contacted at most once per transport; the unrepaired shadowed-variable branch is refuted by witness. Tied to Go by scripted loopback endpoints (TCP and UDP on one port) and the real client AS exchange: all 36 assignments x 3 limits for one KDC, samples for 2-3 KDCs, comparing result class, error code, answering endpoint and contacted endpoints.",
    note="net, the 5 s deadlines and the OS are outside the model (silent endpoints cost real time, so they are sampled in the quick tier); endpoints that refuse leave no trace, so their position in the walk is not observed (it does not influence the result).",
    technique="Lean 4 proof (case analysis over the fallback logic, induction over the KDC walk) + differential fault enumeration on loopback", design="5/C12"),
+ "C13": dict(
+   text="Lean theorems: DER definite lengths round-trip for every n < 2^64; every well-formed TLV tree decodes from its encoding (mutual induction over the nested tree); the Go loop of asn1tools.MarshalLengthBytes equals the X.690 length for EVERY n and GetLengthFromASN inverts it; RFC 4120 5.2.8 flag numbering for all 32 flags and arbitrary octets; regenerated facts (go/ast over the struct declarations of the current source): the ASN.1 shape (order, context tags, OPTIONAL, universal types) of 24 Go structs equals the RFC 4120/3244/4178 modules transcribed by hand, shadow marshalling structs match up to RawValue holes, application tag numbers equal the RFC's. The typed codec (independent Lean RFC decoder/encoder) is tied to Go for 15 message types: Go marshals -> Lean decodes the same field values -> Lean re-encodes the same bytes -> Go unmarshals an equal value and re-marshals the same bytes, also after decrypting.",
+   note="gofork/encoding/asn1 (reflection codec) is external; that it implements the modelled DER rules is the differential run. The typed round trip decode(encode v) = v for arbitrary typed values is NOT proved in Lean (stated as typed_roundtrip_partial for the primitive case); NegTokenResp.negState is always emitted by Go although OPTIONAL in RFC 4178 (conforming, noted).",
+   technique="Lean 4 proof (DER length/TLV round trips by mutual induction, arithmetic loop invariant, kernel decide over octets) + regenerated struct-shape facts (rfl) + differential codec run against an independent RFC codec", design="5/C13"),
  "C14": dict(
    text="Lean theorems over a model of keytab.go: Unmarshal reads every file an independent writer (MIT format) renders — holes, with/without 32-bit kvno, v1/v2, both byte orders — to exactly the written entries (reads_spec); Marshal equals that writer (marshal_is_render) hence round trip for both versions (roundtrip); GetEncryptionKey is sound, complete and prefers the newest match (lookup_*). All for unbounded sizes. The model is tied to the Go code by differential runs on rendered, re-marshalled, mutated files and present/near-miss lookups.",
    note="Model written by hand (Impl follows Unmarshal incl. the discarded parsePrincipal error); v1 byte order is the host's (little endian here). External: encoding/binary.",
